@@ -19,7 +19,7 @@ def _run(exe, args):
     # that does not return into a verdict: re-run once, then reported
     for attempt in (0, 1):
         try:
-            return subprocess.run([exe] + [str(a) for a in args], capture_output=True, text=True, env=build.san_env(), timeout=1500 if args[0] == 'huge' else 900)
+            return subprocess.run([exe] + [str(a) for a in args], capture_output=True, text=True, env=build.san_env(), timeout=1500 if args[0] == 'huge' else 300 if args[0] == 'zeros' else 900)
         except subprocess.TimeoutExpired:
             continue
     return _Hung()
@@ -54,17 +54,21 @@ def run(ctx):
     for i in range(4 if ctx.tier == 'quick' else 16):
         jobs.append((exe_fast, ['long', ctx.seed * 77 + i, 22 if ctx.tier == 'quick' else 26]))
     jobs.append((exe_asan, ['long', ctx.seed * 79, 18]))
+    # enormous lengths are cheap over untouched (all-zero) memory with an analytic reference: the sign bit and the width of int
+    zl = [1 << 31, 1 << 32] if ctx.tier == 'quick' else [1 << 31, (1 << 31) + 5, (1 << 32) - 1, 1 << 32, (1 << 32) + 17, 3 << 30, 1 << 33, (1 << 16), (1 << 24) + 1]
+    for k, n_ in enumerate(zl + [0, 1, 65535, 65536]):
+        jobs.append((exe_fast, ['zeros', ctx.seed * 97 + k, n_] + (['whole-only'] if ctx.tier == 'quick' and n_ >= (1 << 30) else [])))
     if ctx.tier == 'thorough':
         jobs.append((exe_fast, ['huge', ctx.seed * 83, (1 << 32) + 17]))
         jobs.append((exe_fast, ['huge', ctx.seed * 89, (1 << 32)]))
     with ThreadPoolExecutor(max_workers=16) as ex:
         results = list(ex.map(lambda j: (j, _run(*j)), jobs))
-    tot = {'pairs': 0, 'pairs2': 0, 'random': 0, 'long': 0, 'huge': 0, 'echo': 0}
+    tot = {'pairs': 0, 'pairs2': 0, 'random': 0, 'long': 0, 'huge': 0, 'echo': 0, 'zeros': 0}
     splits = 0
     for (exe, args), r in results:
         if r.returncode == -999:
             ctx.violation('no-return:' + args[0], 'lha_crc16_buf did not return: h_crc %s exceeded the watchdog twice (a single call on a buffer of %s bytes)'
-                          % (' '.join(map(str, args)), args[2] if args[0] == 'huge' else 'up to 2^26'), replay='h_crc ' + ' '.join(map(str, args)) + '\n', ext='txt')
+                          % (' '.join(map(str, args)), args[2] if args[0] in ('huge', 'zeros') else 'up to 2^26'), replay='h_crc ' + ' '.join(map(str, args)) + '\n', ext='txt')
             continue
         if r.returncode != 0:
             if 'ERROR: AddressSanitizer' in r.stderr or 'runtime error' in r.stderr:
@@ -90,19 +94,21 @@ def run(ctx):
     if tot['pairs'] != expect_pairs:
         raise core.HarnessFailure('pairs enumerated %d != 2^24' % tot['pairs'])
     # check value through the library itself, via a one-off random-mode equivalent: done in harness 'random'
-    ctx.cov['evaluations'] = tot['pairs'] + tot['pairs2'] + tot['random'] + tot['long'] + tot['huge'] + tot['echo']
+    ctx.cov['evaluations'] = tot['pairs'] + tot['pairs2'] + tot['random'] + tot['long'] + tot['huge'] + tot['echo'] + tot['zeros']
     ctx.cov['distinct_nontrivial'] = tot['pairs'] + tot['pairs2']   # enumerated spaces: all distinct by construction
     ctx.cov['exhaustive'] = True
     ctx.cov['rule'] = ('all 2^16 states x 2^8 bytes enumerated (distinct by construction, every one non-trivial: a table '
                        'lookup is exercised); two-byte inputs: %s; random buffers (len 0..4096, misalignment 0..7, initial '
                        'state 0 or random) compared whole / every 2-split (len<=40) / random k-split incl. empty pieces; '
-                       'empty pieces as (NULL,0) and (pointer,0) from every state and inside random splits; state-echo buffers (all 2^16 states x prefix 0..7 x data making state^data one of 7 special words x 00/FF fill); long buffers up to 2^%d bytes in one call%s; distinct_nontrivial counts only the enumerated (state,input) pairs'
+                       'all-zero buffers of 2^31 and 2^32 bytes (thorough: to 2^33) against an analytic reference; empty pieces as (NULL,0) and (pointer,0) from every state and inside random splits; state-echo buffers (all 2^16 states x prefix 0..7 x data making state^data one of 7 special words x 00/FF fill); long buffers up to 2^%d bytes in one call%s; distinct_nontrivial counts only the enumerated (state,input) pairs'
                        % ('all 2^32 (state, 2 bytes)' if ctx.tier == 'thorough' else 'states 0..255 x 2^16',
                           22 if ctx.tier == 'quick' else 26, ' and two of 2^32(+17) bytes' if ctx.tier == 'thorough' else ''))
     ctx.cov['state_byte_pairs'] = tot['pairs']
     ctx.cov['state_two_byte_cases'] = tot['pairs2']
     ctx.cov['random_buffers'] = tot['random']
     ctx.cov['long_buffers'] = tot['long']
+    ctx.cov['zero_buffers_up_to_bytes'] = max(zl)
+    ctx.cov['zero_buffer_cases'] = tot['zeros']
     ctx.cov['state_echo_cases'] = tot['echo']
     ctx.cov['long_buffer_lengths'] = ('2^k-1, 2^k, 2^k+1 for k=8..%d; 2..9 x 65536 (+random tail); 24 random in [65536, 2^21); 24 random in '
                                       '[256, 70256); each whole, 2-split and k-split with pieces that may exceed 65535' % (22 if ctx.tier == 'quick' else 26))
